@@ -82,6 +82,17 @@ def cond_reads(b, sf):
     return out
 
 
+def _owned_argument(b, d):
+    """The place is (a field path inside) a by-value parameter, reached without any dereference."""
+    if d.get("k") != "arg" or b.kind not in ("Fn", "AssocFn"):
+        return False
+    ins = (b.d.get("sig") or {}).get("inputs") or []
+    l = d.get("l", 0)
+    if not (1 <= l <= len(ins)) or ins[l - 1].lstrip().startswith(("&", "*")):
+        return False
+    return not any(e == "*" or (isinstance(e, dict) and e.get("deref")) for e in d.get("proj", []))
+
+
 def writes(b, sf):
     out = set()
     # direct assignments into a state field (through self, a local reference or a captured place)
@@ -92,6 +103,8 @@ def writes(b, sf):
         if not pl.get("p"):
             continue
         d = b.origin({"k": "copy", "p": pl})
+        if _owned_argument(b, d):
+            continue        # `fn with_x(mut self, ..) -> Self { self.x = ..; self }`: editing an owned value builds a new one
         for e in d.get("proj", []):
             if isinstance(e, dict) and "f" in e and e.get("n") and not e.get("var"):
                 n = _is_state("%s#%s" % (str(e.get("of", "?")).split("::")[-1], e["n"]), sf)
